@@ -64,6 +64,10 @@ def run_spec(spec, tmpdir=None):
     if n and rec['clients']:      # (a stream over a view without clients never yields)
       buf, seed = spec['buffer'], spec['seed']
       rec['shuffled'] = [name(c) for c, _ in itertools.islice(fd.shuffled_clients(buf, seed), 3 * n)]
+      # legal seeds that look falsy must seed the stream like any other
+      rec['shuffled_seed0'] = [name(c) for c, _ in itertools.islice(fd.shuffled_clients(buf, 0), 2 * n)]
+      rec['shuffled_seed0_again'] = [name(c) for c, _ in itertools.islice(fd.shuffled_clients(buf, 0), 2 * n)]
+      rec['shuffled_seed0_np'] = [name(c) for c, _ in itertools.islice(fd.shuffled_clients(buf, np.int64(0)), 2 * n)]
     if n and rec['clients'] and spec.get('samplers', True):
       buf, seed = spec['buffer'], spec['seed']
       k, r0, rounds = spec['cohort'], spec['r0'], spec['rounds']
